@@ -112,6 +112,8 @@ theorem decode_succ (fuel : Nat) (bs : Bytes) (major ai n : Nat) (rest : Bytes)
       else
         if ai < 24 then some (.simple n, rest) else none) := by
   simp only [decode, h]
+  repeat' split
+  all_goals simp_all
 
 mutual
 theorem decode_encode : ∀ (v : Cbor) (fuel : Nat) (rest : Bytes), v.wf = true → v.size ≤ fuel →
@@ -187,5 +189,58 @@ theorem decodePairs_encode : ∀ (kvs : List (Cbor × Cbor)) (fuel : Nat) (rest 
     simp only [decode_encode k f _ hwf.1 (by omega), decode_encode v f _ hwf.2.1 (by omega),
       decodePairs_encode kvs f rest hwf.2.2 (by omega)]
 end
+
+theorem head_length_pos (m n : Nat) : 0 < (head m n).length := by
+  unfold head; split <;> (try split) <;> (try split) <;> (try split) <;> simp
+
+mutual
+theorem size_le : ∀ (v : Cbor), v.size + 1 ≤ 2 * v.encode.length
+  | .uint n => by have := head_length_pos 0 n; simp [Cbor.size, Cbor.encode]; omega
+  | .nint n => by have := head_length_pos 1 n; simp [Cbor.size, Cbor.encode]; omega
+  | .bytes b => by have := head_length_pos 2 b.length; simp [Cbor.size, Cbor.encode]; omega
+  | .text b => by have := head_length_pos 3 b.length; simp [Cbor.size, Cbor.encode]; omega
+  | .array xs => by
+    have := head_length_pos 4 xs.length; have := sizeList_le xs
+    simp [Cbor.size, Cbor.encode]; omega
+  | .map kvs => by
+    have := head_length_pos 5 kvs.length; have := sizePairs_le kvs
+    simp [Cbor.size, Cbor.encode]; omega
+  | .tag t v => by
+    have := head_length_pos 6 t; have := size_le v
+    simp [Cbor.size, Cbor.encode]; omega
+  | .simple n => by have := head_length_pos 7 n; simp [Cbor.size, Cbor.encode]; omega
+theorem sizeList_le : ∀ (xs : List Cbor), sizeList xs ≤ 2 * (encodeList xs).length
+  | [] => by simp [sizeList]
+  | x :: xs => by
+    have := size_le x; have := sizeList_le xs
+    simp [sizeList, encodeList]; omega
+theorem sizePairs_le : ∀ (kvs : List (Cbor × Cbor)), sizePairs kvs ≤ 2 * (encodePairs kvs).length
+  | [] => by simp [sizePairs]
+  | (k, v) :: kvs => by
+    have := size_le k; have := size_le v; have := sizePairs_le kvs
+    simp [sizePairs, encodePairs]; omega
+end
+
+/-- `UnmarshalFirst` on an encoded value followed by anything. -/
+theorem decodeFirst_encode (v : Cbor) (rest : Bytes) (hwf : v.wf = true) :
+    decodeFirst (v.encode ++ rest) = some (v, rest) := by
+  unfold decodeFirst
+  apply decode_encode v _ rest hwf
+  have := size_le v
+  simp; omega
+
+theorem decodeAll_encode (v : Cbor) (hwf : v.wf = true) : decodeAll v.encode = some v := by
+  have := decodeFirst_encode v [] hwf
+  simp only [List.append_nil] at this
+  simp [decodeAll, this]
+
+
+/-- The canonical encoding is injective on well-formed values. -/
+theorem encode_inj (a b : Cbor) (ha : a.wf = true) (hb : b.wf = true) (h : a.encode = b.encode) : a = b := by
+  have h1 := decodeAll_encode a ha
+  have h2 := decodeAll_encode b hb
+  rw [h] at h1
+  rw [h1] at h2
+  exact Option.some.inj h2
 
 end Juno.C07
